@@ -7,9 +7,20 @@ CONSTANTS
   Frames = {}
   MaxFrames = 0
   CrcCounted = TRUE
+  PayFrames = {}
+  PayHeads = {}
+  TwiceLens = {}
+  PassThrough = FALSE
+  LenMod = 0
   Lens = {1, 2, 247, 248, 249, 2039, 2041, 8182, 8184}
   NRandLens = 1
   PoolSize = 8
   NRandStreams = 40
+  PayLens = {1, 6, 249, 3000, 0}
+  PayOuters = 8
+  PaySeqPool = 4
+  LongKinds = 4
+  LongTotals = {32, 33, 35, 41}
+  MaxRep = 20000
 INVARIANT Emit
 CHECK_DEADLOCK FALSE
